@@ -16,7 +16,11 @@ percent}) bound to C03 and to the fidelity side (spec/lifecycle/Mirror.tla + Mir
    steer the schedule class; one shard runs with a single P (GOMAXPROCS=1), where a started goroutine runs only when the
    worker blocks.
 3. TLC validates every recorded case against MirrorTrace (Mirror's operators OwedReply / Attempts / Deadline / Want /
-   Changed decide), soft expectations; signatures C03:mirror:<kind>:<case class>."""
+   Changed decide), soft expectations; signatures C03:mirror:<kind>:<case class>.
+4. The same filter behind an HTTP/2 and behind a bolt listener (driver mode probe, two-way and one-way): a fixed set of
+   requests per protocol, judged by MirrorTrace's TProbe (reply owed by the primary's script, one delivery, the owed
+   number of copies equal to what the primary host received, the mirror cluster's books back); signatures
+   C03:mirror:<kind>:proto=<protocol>[:oneway].  run(ctx, pid, probes=()) leaves them out."""
 import collections
 import concurrent.futures as cf
 import json, os, random, re
